@@ -145,10 +145,24 @@ def inputs(ctx):
                               "tables": [{"name": "Sheet1", "header": header, "rows": rows, "widths": []}]}
     # a table long enough for the fixed-format files to exceed the readers' 32 KiB buffer, with a record length that does not
     # divide it: rows numbered in every cell, so a lost, repeated or misaligned record is visible
-    for widths, m in (((7, 9, 5), 1650),) if quick else (((7, 9, 5), 1650), ((11, 2, 4), 4000), ((1, 30, 2), 1200)):
-        rows = [[f"a{i}"[:widths[0]], f"row-{i}"[:widths[1]], f"{i % 100000}"[:widths[2]]] for i in range(m)]
+    for widths, m in (((7, 9, 5), 1650), ((4600, 60, 40), 12)) if quick else (((7, 9, 5), 1650), ((4600, 60, 40), 12), ((11, 2, 4), 4000),
+                                                                              ((1, 30, 2), 1200), ((9000, 3, 3), 9), ((300, 300, 301), 80)):
+        rows = [[(f"a{i}" + "=" * 12000)[:widths[0]], f"row-{i}"[:widths[1]], f"{i % 100000}"[:widths[2]]] for i in range(m)]
         yield "long", {"kind": "cobol", "numbers": [], "only": ["csv", "fixed"],
                        "tables": [{"name": "Sheet1", "header": ["REC-KEY", "CUST-NM", "AMT"], "rows": rows, "widths": list(widths)}]}
+    # rows in which EVERY cell is the empty string (and empty cells scattered elsewhere), in the formats that store an empty
+    # string as such (CSV, TAB, NDJSON; the office formats turn an empty cell into no cell): a blank row is a row
+    for i in range(6 if quick else 60):
+        n = rng.randint(1, 4)
+        header = rng.sample(HEADINGS, n)
+        rows = []
+        for r in range(rng.randint(2, 7)):
+            kind = rng.randrange(3)
+            rows.append([""] * n if kind == 0 else [rng.choice(CELLS + ["", ""]) for _ in range(n)])
+        if not any(all(c == "" for c in r) for r in rows):
+            rows.insert(rng.randrange(len(rows) + 1), [""] * n)
+        yield "blank-rows", {"kind": "plain", "numbers": [], "only": ["csv", "tab", "ndjson"],
+                             "tables": [{"name": "Sheet1", "header": header, "rows": rows, "widths": []}]}
     n_plain, n_cobol, n_num = (40, 40, 16) if quick else (300, 300, 100)
     for i in range(n_plain):
         yield "plain", _workbook(rng, "plain", i < n_num // 2)
